@@ -96,7 +96,7 @@ pub fn run_oracle(name: &str, seed: u64, n: usize, tier: &str) -> util::OracleRe
         "inc_c19" => incremental::oracle(&mut rng, n, tier),
         "serde2026_roundtrip" | "serde2026_blobs" | "intern" => serde2026::oracle(name, &mut rng, n, tier),
         s if s.starts_with("backref_") => backref::oracle(s, &mut rng, n, tier),
-        "costs_vectors" | "unknown_rule" => costs::oracle(name, &mut rng, n, tier),
+        "costs_vectors" | "unknown_rule" | "costs_doc" => costs::oracle(name, &mut rng, n, tier),
         "classic_big" => classic::oracle_big(&mut rng, n, tier),
         "ref_vectors" | "ref_findings" => refclvm::oracle(name, &mut rng, n, tier),
         "classic_decoders" => classic::oracle_decoders(&mut rng, n, tier),
